@@ -1036,3 +1036,11 @@ GROUPS["p17"] = [
       "",
       None),
 ]
+
+GROUPS["g29"] += [
+    # F29: the number lexer keeps infinity again
+    E("c19-number-not-finite", ["C19"], "harper-core/src/lexing/mod.rs",
+      "        if let Some(n) = s.parse::<f64>().ok().filter(|n| n.is_finite()) {",
+      "        if let Ok(n) = s.parse::<f64>() {",
+      "R-C19-finite:lex_number:finite-value"),
+]
